@@ -4,21 +4,52 @@ From Coq.Strings Require Import Byte.
 Import ListNotations.
 From SV Require Import Text C01_Lines C01_Dec G_codes G_c01_io C01_Model C01_Lemmas C01_Formats C01_Stockholm.
 
-(* what the sequence round trip needs of a line written before '##FASTA' *)
+(* what the sequence round trip needs of a line written before '##FASTA': not the directive itself, a comment / blank line
+   or a feature line the reader accepts and that carries no ID attribute (lines sharing an ID are merged into one feature
+   by the reader, which is property C02's business), no line break inside *)
+Definition line_id (l : str) : option str :=
+  match split_on TAB (strip l) with
+  | [_; _; _; _; _; _; _; _; attrs] => attr_id attrs
+  | _ => None
+  end.
 Definition pre_line_ok (l : str) : bool :=
-  negb (startswith GFF_FASTA l) && (head_is HASH l || is_blank l || gff_ft_ok l) && no_byte nl l && no_byte cr l.
+  negb (startswith GFF_FASTA l)
+  && (head_is HASH l || is_blank l || (gff_ft_ok l && match line_id l with None => true | Some _ => false end))
+  && no_byte nl l && no_byte cr l.
 
-Lemma gff_skip_pre fl rest : forallb pre_line_ok fl = true -> gff_skip (fl ++ GFF_FASTA :: rest) = Ok rest.
+Lemma gff_ft_key_none o l : line_id l = None -> fst (gff_ft_key o l) = None.
 Proof.
-  induction fl as [|l fl IH]; intros H.
-  - cbn [app gff_skip]. change (startswith GFF_FASTA GFF_FASTA) with true. reflexivity.
+  unfold line_id, gff_ft_key.
+  destruct (split_on TAB (strip l)) as [|c1 [|c2 [|c3 [|c4 [|c5 [|c6 [|c7 [|c8 [|c9 [|c10 r]]]]]]]]]]; try reflexivity.
+  intros H. rewrite H. reflexivity.
+Qed.
+
+Lemma gff_ft_ok_opt_of o l : gff_ft_ok l = true -> gff_ft_ok_opt o l = true.
+Proof.
+  unfold gff_ft_ok, gff_ft_ok_opt.
+  destruct (split_on TAB (strip l)) as [|c1 [|c2 [|c3 [|c4 [|c5 [|c6 [|c7 [|c8 [|c9 [|c10 r]]]]]]]]]]; try discriminate.
+  intros H. match goal with |- (if ?b then true else _) = true => destruct b; [reflexivity|exact H] end.
+Qed.
+
+Lemma gff_skip_opt_pre o fl rest : forall last, forallb pre_line_ok fl = true ->
+  gff_skip_opt o last (fl ++ GFF_FASTA :: rest) = Ok rest.
+Proof.
+  induction fl as [|l fl IH]; intros last H.
+  - cbn [app gff_skip_opt]. change (startswith GFF_FASTA GFF_FASTA) with true. reflexivity.
   - cbn [forallb] in H. apply andb_prop in H. destruct H as [Hl Hf]. unfold pre_line_ok in Hl.
     apply andb_prop in Hl. destruct Hl as [Hl _]. apply andb_prop in Hl. destruct Hl as [Hl _].
     apply andb_prop in Hl. destruct Hl as [H1 H2]. apply negb_true_iff in H1.
-    cbn [app gff_skip]. rewrite H1.
+    cbn [app gff_skip_opt]. rewrite H1. destruct (filt_fast_skips o l); [apply IH; exact Hf|].
     destruct (head_is HASH l || is_blank l) eqn:E; [apply IH; exact Hf|].
-    cbn [orb] in H2. rewrite H2. apply IH. exact Hf.
+    cbn [orb] in H2. apply andb_prop in H2. destruct H2 as [H2 H3].
+    rewrite (gff_ft_ok_opt_of o l H2). destruct (gff_filtered o l); [apply IH; exact Hf|].
+    destruct (line_id l) eqn:Eid; [discriminate|].
+    pose proof (gff_ft_key_none o l Eid) as Ek. destruct (gff_ft_key o l) as [k st]. cbn [fst] in Ek. subst k.
+    apply IH. exact Hf.
 Qed.
+
+Lemma gff_skip_pre fl rest : forallb pre_line_ok fl = true -> gff_skip (fl ++ GFF_FASTA :: rest) = Ok rest.
+Proof. intros H. apply gff_skip_opt_pre. exact H. Qed.
 
 Lemma pre_lines_clean fl c : (c = nl \/ c = cr) -> forallb pre_line_ok fl = true -> forallb (no_byte c) fl = true.
 Proof.
@@ -35,10 +66,11 @@ Theorem gff_pre_roundtrip fl b : forallb pre_line_ok fl = true -> forallb wfb_fa
 Proof.
   intros Hf H. split.
   - unfold read_content. rewrite text_lines_unlines.
-    + unfold write_gff_lines_fts, read_gff_lines. cbn [gff_skip].
+    + unfold write_gff_lines_fts, read_gff_lines, gff_skip. cbn [gff_skip_opt].
       change (startswith GFF_FASTA (bs "##gff-version 3"%bs)) with false.
+      change (filt_fast_skips no_opts (bs "##gff-version 3"%bs)) with false.
       change (head_is HASH (bs "##gff-version 3"%bs)) with true. cbn [orb].
-      rewrite (gff_skip_pre fl _ Hf). cbn [bind].
+      rewrite (gff_skip_opt_pre no_opts fl _ None Hf). cbn [bind].
       unfold read_fasta_lines. rewrite (iter_fasta_written b None H). cbn [flush app bind].
       rewrite map_set_fmt_pre_norm. reflexivity.
     + unfold write_gff_lines_fts. cbn [forallb]. rewrite forallb_app. cbn [forallb].
@@ -187,7 +219,10 @@ Proof.
       change (num_or_dot DOT) with true. change (attrs_ok DOT) with true. rewrite !andb_true_r.
       apply Z.ltb_lt. lia.
     - revert Hg. apply forallb_imp. intros c. apply graph_no_tab_s. }
-  rewrite Hok. rewrite !orb_true_r. reflexivity.
+  assert (Hid : line_id (join [TAB] (gff_ft_cols ft)) = None).
+  { unfold line_id. rewrite S1. rewrite split_join; [reflexivity|discriminate|].
+    revert Hg. apply forallb_imp. intros c. apply graph_no_tab_s. }
+  rewrite Hok, Hid. cbn [andb]. rewrite !orb_true_r. reflexivity.
 Qed.
 
 Lemma basket_ft_lines_ok fts b : forallb wf_gft fts = true -> forallb pre_line_ok (basket_ft_lines fts b) = true.
@@ -210,4 +245,37 @@ Proof.
   intros Hf H. destruct (gff_pre_roundtrip (basket_ft_lines fts b) b (basket_ft_lines_ok fts b Hf) H) as [H1 H2].
   eexists. split; [reflexivity|]. split; [exact H1|].
   unfold write_w_fts. unfold basket_ft_lines in *. rewrite basket_fts_norm. rewrite H2. reflexivity.
+Qed.
+
+(* ---------------------------------------------------------------- reader options do not change which sequences are read *)
+(* whatever filt_fast / filt / default_ftype are given, the text written for a basket (with acceptable lines in front of
+   the sequence section) is read into the same sequences *)
+Theorem gff_options_irrelevant o fl b : forallb pre_line_ok fl = true -> forallb wfb_fasta b = true ->
+  read_gff_opt o (CText (unlines (write_gff_lines_fts fl b))) = Ok (map (norm_fasta Gff) b)
+  /\ read_gff_opt o (CText (unlines (write_gff_lines_fts fl b))) = read_content Gff (CText (unlines (write_gff_lines_fts fl b))).
+Proof.
+  intros Hf H. destruct (gff_pre_roundtrip fl b Hf H) as [R _]. rewrite R.
+  assert (G : read_gff_opt o (CText (unlines (write_gff_lines_fts fl b))) = Ok (map (norm_fasta Gff) b)); [|split; exact G].
+  unfold read_gff_opt. rewrite text_lines_unlines.
+  - unfold write_gff_lines_fts, read_gff_lines_opt. cbn [gff_skip_opt].
+    change (startswith GFF_FASTA (bs "##gff-version 3"%bs)) with false.
+    destruct (filt_fast_skips o (bs "##gff-version 3"%bs)).
+    + rewrite (gff_skip_opt_pre o fl _ None Hf). cbn [bind].
+      unfold read_fasta_lines. rewrite (iter_fasta_written b None H). cbn [flush app bind].
+      rewrite map_set_fmt_pre_norm. reflexivity.
+    + change (head_is HASH (bs "##gff-version 3"%bs)) with true. cbn [orb].
+      rewrite (gff_skip_opt_pre o fl _ None Hf). cbn [bind].
+      unfold read_fasta_lines. rewrite (iter_fasta_written b None H). cbn [flush app bind].
+      rewrite map_set_fmt_pre_norm. reflexivity.
+  - unfold write_gff_lines_fts. cbn [forallb]. rewrite forallb_app. cbn [forallb].
+    rewrite (pre_lines_clean fl nl (or_introl eq_refl) Hf), (fasta_lines_clean b nl (or_introl eq_refl) H). reflexivity.
+  - unfold write_gff_lines_fts. cbn [forallb]. rewrite forallb_app. cbn [forallb].
+    rewrite (pre_lines_clean fl cr (or_intror eq_refl) Hf), (fasta_lines_clean b cr (or_intror eq_refl) H). reflexivity.
+Qed.
+
+Theorem gff_fts_options o fts b t : forallb wf_gft fts = true -> forallb wfb_fasta b = true ->
+  write_w_fts Gff fts b = Ok t -> read_gff_opt o t = Ok (map (norm_fasta Gff) b).
+Proof.
+  intros Hf H E. unfold write_w_fts in E. inversion E; subst t.
+  apply (gff_options_irrelevant o _ b (basket_ft_lines_ok fts b Hf) H).
 Qed.
